@@ -82,6 +82,10 @@ static int nplan = 0;
 // plan kind 'E' (k:E:errno): a *persistent* failure — every event from k on, for SIMSHIM_REPEAT events (default 60),
 // fails with errno (what a full disk or a dying device looks like; a single failed call is often retried away)
 static long repeat_from = 0, repeat_n = 60, repeat_errno = 0;
+// SIMSHIM_FAILPATH=<errno>:<substring>: every mutating call on a path containing the substring fails with errno, for
+// the whole life of the process (a file the file system refuses: quota, permissions, a bad block under one file)
+static char failpath[256];
+static long failpath_errno = 0, failpath_fired = 0;
 static __thread int64_t tl_clock_calls = 0;
 
 static const char *envs(const char *k) { return getenv(k); }
@@ -143,6 +147,11 @@ static void shim_init(void) {
         }
     }
     if ((e = envs("SIMSHIM_REPEAT"))) repeat_n = atol(e);
+    if ((e = envs("SIMSHIM_FAILPATH"))) {
+        char *end;
+        failpath_errno = strtol(e, &end, 10);
+        if (*end == ':' && strlen(end + 1) < sizeof failpath) strcpy(failpath, end + 1); else failpath_errno = 0;
+    }
     if ((e = envs("SIMSHIM_CTL"))) {
         int fd = atoi(e);
         if (RS2(SYS_fcntl, fd, F_GETFD) >= 0) { ctl = fd; RS3(SYS_fcntl, fd, F_SETFD, FD_CLOEXEC); }
@@ -223,7 +232,7 @@ static struct verdict event(char cls, const char *call, const char *arg, long le
     struct verdict v = {'G', 0};
     if (!active) return v;
     if (cls == 'R' && !gate_r) return v;
-    if (ctl < 0 && logfd < 0 && nplan == 0 && repeat_from == 0) return v;
+    if (ctl < 0 && logfd < 0 && nplan == 0 && repeat_from == 0 && failpath_errno == 0) return v;
     if (!is_main()) {
         if (logfd >= 0) {
             char b[700];
@@ -243,6 +252,10 @@ static struct verdict event(char cls, const char *call, const char *arg, long le
             v.kind = plan[i].kind; v.arg = plan[i].arg;
             if (logfd >= 0) { char b[64]; int n = snprintf(b, sizeof b, "N fired-%c\n", v.kind); RS3(SYS_write, logfd, b, n); }
         }
+    if (failpath_errno && cls == 'M' && arg && strstr(arg, failpath)) {
+        v.kind = 'F'; v.arg = failpath_errno;
+        if (logfd >= 0 && !failpath_fired++) { char b[64]; int n = snprintf(b, sizeof b, "N fired-P\n"); RS3(SYS_write, logfd, b, n); }
+    }
     if (repeat_from > 0 && k >= repeat_from && k < repeat_from + repeat_n) {
         v.kind = 'F'; v.arg = repeat_errno;
         if (logfd >= 0 && k == repeat_from) { char b[64]; int n = snprintf(b, sizeof b, "N fired-E\n"); RS3(SYS_write, logfd, b, n); }
